@@ -44,6 +44,11 @@ def time_correlation(
         calculated time-correlation information in pandas dataframe
     """
 
+    if condition.dtype.kind in "biu":
+        # integer or bool input, e.g. a 0/1 indicator stored as uint8: products and
+        # sums evaluated in the storage type wrap around
+        condition = condition.astype(np.float64)
+
     timesteps = np.array([snapshot.timestep for snapshot in snapshots.snapshots])
     if len(set(np.diff(timesteps))) == 1:
         # input configuration dumped in linear interval
